@@ -7,7 +7,7 @@ EXPLANATION = ("after every call: outcome class, every get_degree, get_total_deg
 def gen(rng, tier):
     out = []
     for _ in range(250 if tier == "quick" else 6000):
-        if rng.random() < 0.8: G, fam = common.random_connected_graph(rng, 1, 7)
+        if rng.random() < 0.8: G, fam = common.random_connected_graph(rng, 1, 7, large_ok=True)
         else:
             n = rng.randint(1, 6); G = common.mk_graph(n, [(a, b, rng.randint(1, 3)) for a in range(n) for b in range(a + 1, n) if rng.random() < 0.3], rng)
         n = G["n"]; q = rng.randrange(n) if rng.random() < 0.4 else -1
